@@ -24,7 +24,7 @@ func init() {
 		Batches:          tierN(8, 32),
 		DeathIsViolation: true,
 		MemLimitMB:       4096,
-		Floors:           map[string]int64{"C11/leg:*": 20000, "C11/deep-leg:*": 3000, "C11/directed-residue-cases": 40},
+		Floors:           map[string]int64{"C11/leg:*": 20000, "C11/deep-leg:*": 3000, "C11/directed-residue-cases": 40, "C11/directed-wide-integer-cases": 800},
 		Run:              runC11,
 	})
 	harness.Register(&harness.Property{
@@ -118,6 +118,40 @@ func runC11(c *harness.Ctx) {
 			R.Eval(s.U.N.Seq())
 		}
 	}
+	// directed: every argument of every function's typical successful call replaced by integers
+	// wider than 64 bits (low word zero / small / all ones), by empty and by 33-byte items
+	wide := [][]byte{append([]byte{1}, make([]byte, 8)...), append([]byte{0}, gen.U64(1)...), append(append([]byte{1}, make([]byte, 8)...), make([]byte, 24)...),
+		make([]byte, 9), bytes.Repeat([]byte{0xff}, 9), append(make([]byte, 32), 1), {}, append([]byte{1}, gen.U64(1)...), append([]byte{2}, make([]byte, 16)...)}
+	{
+		probe := NewScn(c.Rand("c11w"), harness.NewReporter("x"), ScnOpts{Shards: 2})
+		nBase := len(baseCalls(probe))
+		for bi := 0; bi < nBase; bi++ {
+			if !mine(c, bi) {
+				continue
+			}
+			for wi, wv := range wide {
+				s := NewScn(c.Rand("c11w").Fork(uint64(bi*100+wi)), R, ScnOpts{Shards: 2, Enabled: []string{"C11"}})
+				s.U.N.MeasureAlloc = true
+				s.U.SetRoles(s.A, s.F1, RoleAddQty, RoleNFTBurn, RoleAddURI, RoleUpdAttr, RoleCreate)
+				base := baseCalls(s)[bi]
+				for ai := range base.Args {
+					call := base
+					call.Args = append([][]byte{}, base.Args...)
+					call.Args[ai] = wv
+					var l *node.Leg
+					if isSys(call.Caller) && (call.Func == FPause || call.Func == FUnPause) {
+						l = s.U.N.ExecAt(0, call)
+					} else {
+						l = s.U.N.Exec(call)
+					}
+					onLeg(s.U, s.M, l)
+					drain(s.U.N)
+					R.Cover("C11/directed-wide-integer-cases")
+				}
+				R.Eval(s.U.N.Seq())
+			}
+		}
+	}
 	if mine(c, 3) {
 		aliasCases(c, []string{"C11"})
 		// aliasing through the metadata operations (needs the role for the truncated id, which the
@@ -139,6 +173,46 @@ func runC11(c *harness.Ctx) {
 			R.Cover("C11/directed-alias-cases")
 			R.Eval(s.U.N.Seq())
 		}
+	}
+}
+
+// baseCalls: one typical successful call per function and form, in a funded scenario world.
+func baseCalls(s *Scn) []node.Call {
+	att := [][]byte{[]byte("doWork"), {1}}
+	sys := func(fn string, rcv []byte, args ...[]byte) node.Call {
+		return node.Call{Func: fn, Caller: gen.SysSC, Recipient: rcv, Args: args}
+	}
+	return []node.Call{
+		s.Xfer("T", s.A, s.Same, "f"), s.Xfer("T", s.A, s.KOther, "f", att...),
+		s.Xfer("N", s.A, s.Same, "s"), s.Xfer("N", s.A, s.Other, "s"), s.Xfer("N", s.A, s.KSame, "n", att...),
+		s.Xfer("M", s.A, s.Same, "fs"), s.Xfer("M", s.A, s.Other, "fsn"), s.Xfer("M", s.A, s.KOther, "sf", att...),
+		{Func: FBurn, Caller: s.A, Recipient: gen.SysSC, Args: [][]byte{s.F1, gen.Big(5)}, Gas: gen.BigGas},
+		gen.SelfCall(FLocalMint, s.A, gen.BigGas, s.F1, gen.Big(7)),
+		gen.SelfCall(FLocalBurn, s.A, gen.BigGas, s.F1, gen.Big(7)),
+		gen.SelfCall(FNFTCreate, s.A, gen.BigGas, s.SFT, gen.Big(3), []byte("name"), gen.Big(100), []byte("hash"), []byte("attrs"), []byte("uri1"), []byte("uri2")),
+		gen.SelfCall(FNFTAddQty, s.A, gen.BigGas, s.SFT, gen.U64(1), gen.Big(5)),
+		gen.SelfCall(FNFTBurn, s.A, gen.BigGas, s.SFT, gen.U64(1), gen.Big(2)),
+		gen.SelfCall(FNFTAddURI, s.A, gen.BigGas, s.SFT, gen.U64(1), []byte("uri3"), []byte("uri4")),
+		gen.SelfCall(FNFTUpdAttr, s.A, gen.BigGas, s.SFT, gen.U64(1), []byte("new-attrs")),
+		{Func: FSaveKV, Caller: s.A, Recipient: s.A, Args: [][]byte{[]byte("k1"), []byte("v1"), []byte("k2"), []byte("v2")}, Gas: gen.BigGas},
+		{Func: FChgOwner, Caller: s.A, Recipient: s.KSame, Args: [][]byte{s.Same}, Gas: gen.BigGas},
+		{Func: FChgOwner, Caller: s.A, Recipient: s.KOther, Args: [][]byte{s.Same}, Gas: gen.BigGas},
+		{Func: FClaim, Caller: s.A, Recipient: s.KSame, Args: [][]byte{{1}}, Gas: gen.BigGas},
+		{Func: FSetName, Caller: s.U.DNS, Recipient: gen.UserAddr(5, s.U.DNS[31]), Args: [][]byte{[]byte("alice")}, Gas: gen.BigGas},
+		{Func: FSetName, Caller: s.U.DNS, Recipient: gen.UserAddr(5, byte((uint32(s.U.DNS[31])+1)%s.U.W.NumShards)), Args: [][]byte{[]byte("bob")}, Gas: gen.BigGas},
+		sys(FTransfer, s.Same, s.F1, gen.Big(5)),
+		sys(FSetRole, s.Same, s.F1, []byte(RoleMint), []byte(RoleBurn)),
+		sys(FUnSetRole, s.A, s.F1, []byte(RoleMint), []byte(RoleBurn)),
+		sys(FFreeze, s.A, s.F1), sys(FUnFreeze, s.A, s.F1), sys(FWipe, s.A, s.F1),
+		sys(FPause, gen.SysAcc, s.F1), sys(FUnPause, gen.SysAcc, s.F1),
+		sys(FHandOver, s.A, s.SFT, s.Same), sys(FHandOver, s.A, s.SFT, s.Other),
+		// the NFT operations naming a FUNGIBLE token the caller holds (rejected: no metadata)
+		gen.NFTTransferCall(s.A, s.Same, s.F1, 1, big.NewInt(1), gen.BigGas), gen.NFTTransferCall(s.A, s.Other, s.F1, 1, big.NewInt(1), gen.BigGas),
+		gen.MultiCall(s.A, s.Same, []gen.Item{{ID: s.F1, Nonce: 1, Qty: big.NewInt(1)}, {ID: s.F2, Nonce: 0, Qty: big.NewInt(1)}}, gen.BigGas),
+		gen.SelfCall(FNFTAddQty, s.A, gen.BigGas, s.F1, gen.U64(1), gen.Big(5)),
+		gen.SelfCall(FNFTBurn, s.A, gen.BigGas, s.F1, gen.U64(1), gen.Big(2)),
+		gen.SelfCall(FNFTAddURI, s.A, gen.BigGas, s.F1, gen.U64(1), []byte("uri3")),
+		gen.SelfCall(FNFTUpdAttr, s.A, gen.BigGas, s.F1, gen.U64(1), []byte("new-attrs")),
 	}
 }
 
